@@ -7,6 +7,7 @@
 #include <cctype>
 #include <cstdint>
 #include <cstdlib>
+#include <ctime>
 #include <limits>
 #include <stdexcept>
 #include <string>
@@ -251,6 +252,118 @@ inline int64_t ok_scale_down(int64_t v, int64_t scale) {
     return (v + 5) / 10;
 }
 
+inline int32_t bad_a3_bound_too_small(int64_t v, int64_t scale) {
+    if (v < 0 || v > 1000000 || scale < 0) {
+        throw std::invalid_argument{"v"};
+    }
+    constexpr const int64_t stop = 10LL * std::numeric_limits<int32_t>::max();
+    for (; scale > 0 && v < stop; --scale) {      // may stop at 21474836470..: (v + 5) / 10 == INT32_MAX passes the test below
+        v *= 10;
+    }
+    v = (v + 5) / 10;
+    if (v > std::numeric_limits<int32_t>::max()) {
+        throw std::invalid_argument{"range"};
+    }
+    return static_cast<int32_t>(v);
+}
+
+inline int32_t ok_early_exit_rejected(int64_t v, int64_t scale) {
+    if (v < 0 || v > 1000000 || scale < 0) {
+        throw std::invalid_argument{"v"};
+    }
+    constexpr const int64_t stop = 100LL * std::numeric_limits<int32_t>::max();
+    while (scale > 0) {
+        if (v >= stop) {
+            break;
+        }
+        v *= 10;
+        --scale;
+    }
+    v = (v + 5) / 10;
+    if (v > std::numeric_limits<int32_t>::max()) {
+        throw std::invalid_argument{"range"};
+    }
+    return static_cast<int32_t>(v);
+}
+
+inline const char* bad_b1_shared_budget(const char* s) {
+    int budget = 10;
+    while (*s >= '0' && *s <= '9' && budget > 0) {
+        ++s;
+        --budget;
+    }
+    if (*s == '.') {
+        ++s;
+    }
+    while (*s >= '0' && *s <= '9' && budget > 0) {     // runs on what the first loop left over
+        ++s;
+        --budget;
+    }
+    return s;
+}
+
+inline const char* ok_budget_reset(const char* s) {
+    int budget = 10;
+    while (*s >= '0' && *s <= '9' && budget > 0) {
+        ++s;
+        --budget;
+    }
+    if (*s == '.') {
+        ++s;
+    }
+    budget = 20;
+    while (*s >= '0' && *s <= '9' && budget > 0) {
+        ++s;
+        --budget;
+    }
+    return s;
+}
+
+inline std::time_t bad_t2_february(int mon, int day) {
+    static const std::array<int, 12> days = {{31, 28, 31, 30, 31, 30, 31, 31, 30, 31, 30, 31}};
+    std::tm tm;
+    tm.tm_year = 100;
+    tm.tm_mon = mon;
+    tm.tm_mday = day;
+    tm.tm_hour = 0;
+    tm.tm_min = 0;
+    tm.tm_sec = 0;
+    if (tm.tm_mon >= 0 && tm.tm_mon <= 11 && tm.tm_mday >= 1 && tm.tm_mday <= days[tm.tm_mon]) {
+        return timegm(&tm);
+    }
+    throw std::invalid_argument{"date"};
+}
+
+inline std::time_t bad_t3_day_test_inverted(int mon, int day, int hour) {
+    static const std::array<int, 12> days = {{31, 29, 31, 30, 31, 30, 31, 31, 30, 31, 30, 31}};
+    std::tm tm;
+    tm.tm_year = 100;
+    tm.tm_mon = mon;
+    tm.tm_mday = day;
+    tm.tm_hour = hour;
+    tm.tm_min = 0;
+    tm.tm_sec = 0;
+    if (tm.tm_mon >= 0 && tm.tm_mon <= 11 && tm.tm_mday >= 1 && tm.tm_mday >= days[tm.tm_mon] && tm.tm_hour >= 0 && tm.tm_hour <= 24) {
+        return timegm(&tm);
+    }
+    throw std::invalid_argument{"date"};
+}
+
+inline std::time_t ok_calendar(int mon, int day, int hour) {
+    static const std::array<int, 12> days = {{31, 29, 31, 30, 31, 30, 31, 31, 30, 31, 30, 31}};
+    std::tm tm;
+    tm.tm_year = 100;
+    tm.tm_mon = mon;
+    tm.tm_mday = day;
+    tm.tm_hour = hour;
+    tm.tm_min = 0;
+    tm.tm_sec = 0;
+    if (tm.tm_mon < 0 || tm.tm_mon > 11 || tm.tm_mday < 1 || tm.tm_mday > days[tm.tm_mon] || tm.tm_hour < 0 || tm.tm_hour > 23) {
+        throw std::invalid_argument{"date"};
+    }
+    return timegm(&tm);
+}
+
 inline uint32_t ok_strict(const char* s) {
     if (*s != '\0' && *s != '-' && !std::isspace(*s)) {
         char* end = nullptr;
@@ -341,6 +454,13 @@ inline void use_all(const char* s, const char** p) {
     (void)bad_s3_empty_accepted(s);
     (void)bad_s4_space_accepted(s);
     (void)ok_strict(s);
+    (void)bad_a3_bound_too_small(1, 2);
+    (void)ok_early_exit_rejected(1, 2);
+    (void)bad_b1_shared_budget(s);
+    (void)ok_budget_reset(s);
+    (void)bad_t2_february(1, 2);
+    (void)bad_t3_day_test_inverted(1, 2, 3);
+    (void)ok_calendar(1, 2, 3);
     (void)bad_s5_minus_accepted(s);
     (void)ok_minus_index_spelling(s);
     (void)bad_a2_stops_early(1, -1);
